@@ -322,6 +322,9 @@ func replay(kind string, raw json.RawMessage) (bool, string) {
 	if kind == "schema" {
 		return e2.ReplaySchema(raw)
 	}
+	if kind == "partial" {
+		return e2.ReplayPartial(raw)
+	}
 	var in input
 	if err := json.Unmarshal(raw, &in); err != nil {
 		return false, err.Error()
@@ -1306,6 +1309,7 @@ func run(r *chk.Run) {
 	// metadata only; a table id announced again with other precisions must be
 	// decoded with the new ones (engine E2)
 	phase("schema change (E2)", func() { e2.RunSchemaChange(r) })
+	phase("partial row images (E2)", func() { e2.RunPartialImages(r) })
 	phase("sequential walks", func() { runWalks(r, s, &c) })
 	phase("date", func() { runDates(r, s, &c) })
 	phase("time 3-byte", func() { runTime3(r, s, &c) })
